@@ -12,6 +12,11 @@
 (* C08_Together - are invariants of this model for every arrival pattern,  *)
 (* producer kind, wait() placement and failure set within the constants.   *)
 (*                                                                         *)
+(* Shutdowns = TRUE adds the loop shutting down at any instant: the         *)
+(* background task is cancelled (C07: it always terminates).  CancelAware  *)
+(* = FALSE models the code before repair 51aad17 (the task takes its own   *)
+(* cancellation for wait()'s "flush now" signal, _run_func swallows it):   *)
+(* used by the witness configuration W_D3 only.                            *)
 (* ClearInputs = FALSE models the code before repair 12daa35 (the set of   *)
 (* collected inputs survives a successful call) together with Foreign =    *)
 (* TRUE (another thread's event.clear() may fall between the successful    *)
@@ -28,11 +33,12 @@ CONSTANTS Elems,        \* 1..N : the submissions (= their one argument), made i
           MaxTime,      \* submissions happen at ticks 0..MaxTime
           Waits,        \* set of wait ids; CancelOf[w] says wait(cancel=...)
           CancelOf,
-          Foreign, ClearInputs
+          Foreign, ClearInputs,
+          Shutdowns, CancelAware
 
-VARIABLES now, nsub, q, unfinished, flag, ppc, inputs, gens, getting, func, wpc, mon, fclear
+VARIABLES now, nsub, q, unfinished, flag, ppc, inputs, gens, getting, func, wpc, mon, fclear, shut, landing
 
-vars == <<now, nsub, q, unfinished, flag, ppc, inputs, gens, getting, func, wpc, mon, fclear>>
+vars == <<now, nsub, q, unfinished, flag, ppc, inputs, gens, getting, func, wpc, mon, fclear, shut, landing>>
 
 Emit(m, e) == MStep(m, e @@ [t |-> now, n |-> 0], 0)
 NoGens == [x \in {} |-> 0]
@@ -48,6 +54,8 @@ Init ==
     /\ func = [n |-> 0, until |-> 0, S |-> {}]
     /\ wpc = [w \in Waits |-> "new"]
     /\ fclear = 0
+    /\ landing = <<>>                   \* submissions whose call_soon_threadsafe(q.put_nowait, ...) has not run yet
+    /\ shut = "no"                      \* "no" | "begun" | "done" (task terminated) | "survived"
     /\ mon = MStep(MInit, [e |-> "Config", tau |-> TAU, t |-> 0, n |-> 0], 0)
 
 \* ---------------------------------------------------------------- submissions
@@ -58,17 +66,23 @@ Imm(x) == Kind(x) \in {"call", "empty"}
 KindName(x) == CASE Kind(x) = "call" -> "call" [] Kind(x) = "empty" -> "map_list" [] OTHER -> "await"
 
 Submit ==        \* buffer(x) / buffer.await_(aw) / buffer.map([]) from the loop's own thread: event.clear(); put on the queue
-    /\ nsub < Cardinality(Elems) /\ now <= MaxTime /\ ppc # "check"
+    /\ nsub < Cardinality(Elems) /\ now <= MaxTime /\ ppc # "check" /\ shut = "no"
     /\ LET x == nsub + 1
            m1 == Emit(mon, [e |-> "Submit", id |-> x, kind |-> KindName(x), thr |-> "L1", imm |-> Imm(x)]) IN
        /\ nsub' = x
        /\ flag' = FALSE
-       /\ q' = Append(q, x)
-       /\ unfinished' = unfinished + 1
+       /\ landing' = Append(landing, x)     \* _put: event.clear(); loop.call_soon_threadsafe(q.put_nowait, iterable)
        /\ mon' = CASE Kind(x) = "call" -> Emit(Emit(m1, [e |-> "Produced", id |-> x, x |-> x]), [e |-> "ProducerDone", id |-> x])
                    [] Kind(x) = "empty" -> Emit(m1, [e |-> "ProducerDone", id |-> x])
                    [] OTHER -> m1
-    /\ UNCHANGED <<now, ppc, inputs, gens, getting, func, wpc, fclear>>
+    /\ UNCHANGED <<now, q, unfinished, ppc, inputs, gens, getting, func, wpc, fclear, shut>>
+
+PutLands ==      \* the scheduled q.put_nowait runs in a later iteration of the loop
+    /\ landing # <<>> /\ ppc # "check"
+    /\ q' = Append(q, Head(landing))
+    /\ unfinished' = unfinished + 1
+    /\ landing' = Tail(landing)
+    /\ UNCHANGED <<now, nsub, flag, ppc, inputs, gens, getting, func, wpc, mon, fclear, shut>>
 
 ForeignClear ==  \* another thread is inside _put(): its event.clear() lands at an arbitrary point ...
     /\ Foreign /\ fclear = 0
@@ -76,14 +90,14 @@ ForeignClear ==  \* another thread is inside _put(): its event.clear() lands at 
     /\ flag' = FALSE
     /\ mon' = Emit(Emit(Emit(mon, [e |-> "Submit", id |-> FElem, kind |-> "call", thr |-> "F1", imm |-> TRUE]),
                         [e |-> "Produced", id |-> FElem, x |-> FElem]), [e |-> "ProducerDone", id |-> FElem])
-    /\ UNCHANGED <<now, nsub, q, unfinished, ppc, inputs, gens, getting, func, wpc>>
+    /\ UNCHANGED <<now, nsub, q, unfinished, ppc, inputs, gens, getting, func, wpc, shut, landing>>
 
 ForeignPut ==    \* ... and its call_soon_threadsafe(q.put_nowait) runs on the loop a little later
     /\ fclear = 1 /\ ppc # "check"
     /\ fclear' = 2
     /\ q' = Append(q, FElem)
     /\ unfinished' = unfinished + 1
-    /\ UNCHANGED <<now, nsub, flag, ppc, inputs, gens, getting, func, wpc, mon>>
+    /\ UNCHANGED <<now, nsub, flag, ppc, inputs, gens, getting, func, wpc, mon, shut, landing>>
 
 \* ---------------------------------------------------------------- _process_queue
 Start(xs) == [x \in xs |-> now + Load(x)]      \* the producers start running when _load_inputs iterates them
@@ -95,7 +109,7 @@ PFirst ==        \* first q.get(): block until an item appears; event.clear(); t
     /\ q' = Tail(q) /\ unfinished' = unfinished - 1
     /\ flag' = FALSE
     /\ ppc' = "drain"
-    /\ UNCHANGED <<now, nsub, inputs, getting, func, wpc, mon, fclear>>
+    /\ UNCHANGED <<now, nsub, inputs, getting, func, wpc, mon, fclear, shut, landing>>
 
 PDrain ==        \* take everything queued (task_done each), arm the quiet timer (wait_for(q.get(), timeout)), gather the loaders
     /\ ppc = "drain"
@@ -104,7 +118,7 @@ PDrain ==        \* take everything queued (task_done each), arm the quiet timer
     /\ q' = <<>>
     /\ getting' = Arm                  \* (armed *before* the known producers are drained)
     /\ ppc' = "loading"
-    /\ UNCHANGED <<now, nsub, flag, inputs, func, wpc, mon, fclear>>
+    /\ UNCHANGED <<now, nsub, flag, inputs, func, wpc, mon, fclear, shut, landing>>
 
 LoaderDone(x) == \* one producer is exhausted (or fails: logged and ignored): its element, if any, joins the inputs
     /\ ppc \in {"loading", "load1"} /\ x \in DOMAIN gens /\ gens[x] <= now
@@ -113,116 +127,166 @@ LoaderDone(x) == \* one producer is exhausted (or fails: logged and ignored): it
     /\ mon' = CASE Kind(x) = "await" -> Emit(Emit(mon, [e |-> "Produced", id |-> x, x |-> x]), [e |-> "ProducerDone", id |-> x])
                 [] Kind(x) = "afail" -> Emit(mon, [e |-> "ProducerFailed", id |-> x])
                 [] OTHER -> mon
-    /\ UNCHANGED <<now, nsub, q, unfinished, flag, ppc, getting, func, wpc, fclear>>
+    /\ UNCHANGED <<now, nsub, q, unfinished, flag, ppc, getting, func, wpc, fclear, shut, landing>>
 
 PLoaded ==       \* gather(*input_gens) is done: now wait for the armed q.get()
     /\ ppc = "loading" /\ DOMAIN gens = {}
     /\ ppc' = "armed"
-    /\ UNCHANGED <<now, nsub, q, unfinished, flag, inputs, gens, getting, func, wpc, mon, fclear>>
+    /\ UNCHANGED <<now, nsub, q, unfinished, flag, inputs, gens, getting, func, wpc, mon, fclear, shut, landing>>
 
 GetTakes ==      \* the armed q.get() obtains a new item before the timeout (also while the loaders are still running)
     /\ getting.st = "pending" /\ q # <<>> /\ ppc \in {"loading", "armed"}
     /\ getting' = [getting EXCEPT !.st = "got", !.item = Head(q)]
     /\ q' = Tail(q)
-    /\ UNCHANGED <<now, nsub, unfinished, flag, ppc, inputs, gens, func, wpc, mon, fclear>>
+    /\ UNCHANGED <<now, nsub, unfinished, flag, ppc, inputs, gens, func, wpc, mon, fclear, shut, landing>>
 
 GetTimeout ==    \* wait_for gives up (noticed by _process_queue only once it awaits the task)
     /\ getting.st = "pending" /\ getting.deadline <= now /\ ppc \in {"loading", "armed"}
     \* (at an exact tie between the timer and an arrival either may win: the queue need not be empty)
     /\ getting' = [getting EXCEPT !.st = "timeout"]
-    /\ UNCHANGED <<now, nsub, q, unfinished, flag, ppc, inputs, gens, func, wpc, mon, fclear>>
+    /\ UNCHANGED <<now, nsub, q, unfinished, flag, ppc, inputs, gens, func, wpc, mon, fclear, shut, landing>>
 
 PGot ==          \* await _load_inputs(await self._getting): drain the new item's producer on its own
     /\ ppc = "armed" /\ getting.st = "got"
     /\ gens' = Start({getting.item})
     /\ getting' = [getting EXCEPT !.st = "none", !.item = 0]
     /\ ppc' = "load1"
-    /\ UNCHANGED <<now, nsub, q, unfinished, flag, inputs, func, wpc, mon, fclear>>
+    /\ UNCHANGED <<now, nsub, q, unfinished, flag, inputs, func, wpc, mon, fclear, shut, landing>>
 
 PLoad1Done ==    \* ... then q.task_done() and round again
     /\ ppc = "load1" /\ DOMAIN gens = {}
     /\ unfinished' = unfinished - 1
     /\ ppc' = "drain"
-    /\ UNCHANGED <<now, nsub, q, flag, inputs, gens, getting, func, wpc, mon, fclear>>
+    /\ UNCHANGED <<now, nsub, q, flag, inputs, gens, getting, func, wpc, mon, fclear, shut, landing>>
+
+\* event.set() resolves the futures of everybody suspended in event.wait(): they return when they are scheduled,
+\* whether or not the event has been cleared again by then
+Woken == [w \in Waits |-> IF wpc[w] = "flag" THEN "woken" ELSE wpc[w]]
 
 StartFunc ==     \* timeout or cancelled by wait(): _run_func(inputs)
-    /\ ppc = "armed" /\ getting.st \in {"timeout", "cancelled"}
+    /\ ppc = "armed" /\ getting.st \in {"timeout", "cancelled"} /\ shut # "doomed"
     /\ getting' = [getting EXCEPT !.st = "none"]
     /\ IF inputs = {}
-       THEN /\ flag' = TRUE /\ ppc' = "check" /\ UNCHANGED <<func, mon>>
+       THEN /\ flag' = TRUE /\ wpc' = Woken /\ ppc' = "check" /\ UNCHANGED <<func, mon>>
        ELSE /\ func' = [n |-> func.n + 1, until |-> now + Dur, S |-> inputs]
             /\ mon' = Emit(mon, [e |-> "FuncStart", n |-> func.n + 1, S |-> SetToSeq(inputs)])
-            /\ ppc' = "run" /\ UNCHANGED flag
-    /\ UNCHANGED <<now, nsub, q, unfinished, inputs, gens, wpc, fclear>>
+            /\ ppc' = "run" /\ UNCHANGED <<flag, wpc>>
+    /\ UNCHANGED <<now, nsub, q, unfinished, inputs, gens, fclear, shut, landing>>
 
 EndFunc ==       \* the wrapped function returns or raises
     /\ ppc = "run" /\ func.until <= now
     /\ IF func.n \in FailSet
        THEN /\ mon' = Emit(mon, [e |-> "FuncEnd", n |-> func.n, how |-> "fail"])
-            /\ UNCHANGED <<flag, inputs>>
+            /\ UNCHANGED <<flag, inputs, wpc>>
        ELSE /\ mon' = Emit(mon, [e |-> "FuncEnd", n |-> func.n, how |-> "ok"])
-            /\ flag' = TRUE
+            /\ flag' = TRUE /\ wpc' = Woken
             /\ inputs' = IF ClearInputs THEN {} ELSE inputs
     /\ ppc' = "check"
-    /\ UNCHANGED <<now, nsub, q, unfinished, gens, getting, func, wpc, fclear>>
+    /\ UNCHANGED <<now, nsub, q, unfinished, gens, getting, func, fclear, shut, landing>>
 
 PCheck ==        \* while not self.event.is_set(): ...   /  return and start over
     /\ ppc = "check"
     /\ ppc' = IF flag THEN "first" ELSE "drain"
     /\ inputs' = IF flag THEN {} ELSE inputs      \* a new _process_queue() starts from an empty set
-    /\ UNCHANGED <<now, nsub, q, unfinished, flag, gens, getting, func, wpc, mon, fclear>>
+    /\ UNCHANGED <<now, nsub, q, unfinished, flag, gens, getting, func, wpc, mon, fclear, shut, landing>>
 
 \* ---------------------------------------------------------------- wait()
 WaitCall(w) ==
-    /\ wpc[w] = "new" /\ now <= MaxTime + TAU /\ ppc # "check"
+    /\ wpc[w] = "new" /\ now <= MaxTime + TAU /\ ppc # "check" /\ shut = "no"
     /\ wpc' = [wpc EXCEPT ![w] = "join"]
     /\ mon' = Emit(mon, [e |-> "WaitCall", w |-> w, cancel |-> CancelOf[w], thr |-> "L1"])
-    /\ UNCHANGED <<now, nsub, q, unfinished, flag, ppc, inputs, gens, getting, func, fclear>>
+    /\ UNCHANGED <<now, nsub, q, unfinished, flag, ppc, inputs, gens, getting, func, fclear, shut, landing>>
 
-WaitJoin(w) ==   \* await q.join(): every queued item was taken (and marked done)
-    /\ wpc[w] = "join" /\ unfinished = 0 /\ q = <<>>
+WaitJoin(w) ==   \* await q.join(): every queued item was taken (and marked done).  The loop runs its callbacks in
+                 \* FIFO order: the puts scheduled by earlier submissions have landed before the join task first runs
+    /\ wpc[w] = "join" /\ unfinished = 0 /\ q = <<>> /\ landing = <<>>
     /\ wpc' = [wpc EXCEPT ![w] = "kick"]
-    /\ UNCHANGED <<now, nsub, q, unfinished, flag, ppc, inputs, gens, getting, func, mon, fclear>>
+    /\ UNCHANGED <<now, nsub, q, unfinished, flag, ppc, inputs, gens, getting, func, mon, fclear, shut, landing>>
 
 WaitKick(w) ==   \* if cancel and the quiet timer is pending: cancel it (flush now)
     /\ wpc[w] = "kick" /\ ppc # "drain"          \* the sleep(0) lets _process_queue pull what is queued
     /\ wpc' = [wpc EXCEPT ![w] = "flag"]
     /\ getting' = IF CancelOf[w] /\ getting.st = "pending" /\ ppc \in {"armed", "loading"}
                   THEN [getting EXCEPT !.st = "cancelled"] ELSE getting
-    /\ UNCHANGED <<now, nsub, q, unfinished, flag, ppc, inputs, gens, func, mon, fclear>>
+    /\ UNCHANGED <<now, nsub, q, unfinished, flag, ppc, inputs, gens, func, mon, fclear, shut, landing>>
 
-WaitRet(w) ==    \* await self.event.wait()
-    /\ wpc[w] = "flag" /\ flag /\ ppc \notin {"check"}
+WaitRet(w) ==    \* await self.event.wait(): the event is set already, or this waiter was woken by a set()
+    /\ (wpc[w] = "flag" /\ flag) \/ wpc[w] = "woken"
+    /\ ppc \notin {"check"}
     /\ wpc' = [wpc EXCEPT ![w] = "done"]
     /\ mon' = Emit(mon, [e |-> "WaitRet", w |-> w])
-    /\ UNCHANGED <<now, nsub, q, unfinished, flag, ppc, inputs, gens, getting, func, fclear>>
+    /\ UNCHANGED <<now, nsub, q, unfinished, flag, ppc, inputs, gens, getting, func, fclear, shut, landing>>
+
+\* ---------------------------------------------------------------- loop shutdown
+ShutdownReq ==   \* the loop shuts down: asyncio cancels every task - the background task and the pending wait()s
+    /\ Shutdowns /\ shut = "no" /\ ppc # "check"
+    /\ shut' = "begun"
+    /\ wpc' = [w \in Waits |-> IF wpc[w] \in {"new", "done"} THEN wpc[w] ELSE "cancelled"]
+    /\ mon' = Emit(mon, [e |-> "Shutdown"])
+    /\ UNCHANGED <<now, nsub, q, unfinished, flag, ppc, inputs, gens, getting, func, fclear, landing>>
+
+ShutdownEffect == \* the CancelledError is delivered at the await the task is suspended in
+    /\ shut = "begun"
+    /\ IF ppc = "load1"
+       THEN \* suspended inside `await _load_inputs(item)`: its `except BaseException` logs and swallows the task's
+            \* own CancelledError together with the producer (whose element is lost).  The task goes on; since the
+            \* cancellation request stays recorded (Task.cancelling()) it ends at the next timeout / flush
+            \* instead of calling the function ("doomed").  Before repair 51aad17 nothing ever notices.
+            /\ shut' = IF CancelAware THEN "doomed" ELSE "survived"
+            /\ gens' = NoGens
+            /\ UNCHANGED <<ppc, getting, flag, mon>>
+       ELSE IF CancelAware \/ ppc \notin {"armed", "run"}
+       THEN \* q.get(), gather(): the exception propagates; armed / running: re-raised because
+            \* Task.cancelling() says the task itself is being cancelled (repair 51aad17)
+            /\ ppc' = "dead" /\ shut' = "done"
+            /\ mon' = Emit(IF ppc = "run" THEN Emit(mon, [e |-> "FuncEnd", n |-> func.n, how |-> "cancel"]) ELSE mon,
+                           [e |-> "ShutdownDone"])
+            /\ UNCHANGED <<getting, flag, gens>>
+       ELSE \* before the repair: while armed the cancellation is taken for wait()'s "flush now"; while the
+            \* function runs it is swallowed as a failed call ("retrying"): the task lives on
+            /\ shut' = "survived"
+            /\ UNCHANGED gens
+            /\ IF ppc = "armed"
+               THEN /\ getting' = [getting EXCEPT !.st = "cancelled"] /\ UNCHANGED <<ppc, mon, flag>>
+               ELSE /\ mon' = Emit(mon, [e |-> "FuncEnd", n |-> func.n, how |-> "cancel"])
+                    /\ ppc' = "check" /\ UNCHANGED <<getting, flag>>
+    /\ UNCHANGED <<now, nsub, q, unfinished, inputs, func, wpc, fclear, landing>>
+
+DoomedEnd ==     \* the timer fires / wait() flushes after a swallowed cancellation: `if _current_task_cancelling(): raise`
+    /\ shut = "doomed" /\ ppc = "armed" /\ getting.st \in {"timeout", "cancelled"}
+    /\ ppc' = "dead" /\ shut' = "done"
+    /\ mon' = Emit(mon, [e |-> "ShutdownDone"])
+    /\ UNCHANGED <<now, nsub, q, unfinished, flag, inputs, gens, getting, func, wpc, fclear, landing>>
 
 \* ---------------------------------------------------------------- time
-Urgent == \/ ppc = "first" /\ q # <<>>
+Urgent == \/ shut = "begun"
+          \/ landing # <<>>
+          \/ ppc = "first" /\ q # <<>>
           \/ fclear = 1
           \/ ppc \in {"drain", "check"}
           \/ ppc \in {"loading", "load1"} /\ (DOMAIN gens = {} \/ \E x \in DOMAIN gens : gens[x] <= now)
           \/ ppc \in {"loading", "armed"} /\ getting.st = "pending" /\ (q # <<>> \/ getting.deadline <= now)
           \/ ppc = "armed" /\ getting.st \in {"got", "timeout", "cancelled"}
           \/ ppc = "run" /\ func.until <= now
-          \/ \E w \in Waits : \/ wpc[w] = "join" /\ unfinished = 0 /\ q = <<>>
+          \/ \E w \in Waits : \/ wpc[w] = "join" /\ unfinished = 0 /\ q = <<>> /\ landing = <<>>
                               \/ wpc[w] = "kick" /\ ppc # "drain"
-                              \/ wpc[w] = "flag" /\ flag /\ ppc # "check"
+                              \/ ((wpc[w] = "flag" /\ flag) \/ wpc[w] = "woken") /\ ppc # "check"
 MaxLoad == CHOOSE m \in {LoadOf[x] : x \in Elems} \cup {0} : \A x \in Elems : LoadOf[x] <= m
 Horizon == MaxTime + (Cardinality(FailSet) + 3) * (TAU + Dur + MaxLoad + 1)
 Tick == /\ ~Urgent /\ now < Horizon
-        /\ (now < MaxTime \/ (nsub = Cardinality(Elems) /\ (~Foreign \/ fclear = 2)))
+        /\ (now < MaxTime \/ shut # "no" \/ (nsub = Cardinality(Elems) /\ (~Foreign \/ fclear = 2)))
         /\ now' = now + 1
-        /\ UNCHANGED <<nsub, q, unfinished, flag, ppc, inputs, gens, getting, func, wpc, mon, fclear>>
+        /\ UNCHANGED <<nsub, q, unfinished, flag, ppc, inputs, gens, getting, func, wpc, mon, fclear, shut, landing>>
 
-Settled == /\ nsub = Cardinality(Elems) /\ q = <<>> /\ ppc = "first" /\ flag /\ fclear # 1
+Settled == /\ shut = "no" /\ nsub = Cardinality(Elems) /\ q = <<>> /\ landing = <<>> /\ ppc = "first" /\ flag /\ fclear # 1
            /\ \A w \in Waits : wpc[w] \in {"new", "done"}
-Finish == Settled /\ now = Horizon /\ UNCHANGED vars
+Finish == (Settled \/ shut # "no") /\ now = Horizon /\ UNCHANGED vars
 
-Next == \/ Submit \/ ForeignClear \/ ForeignPut \/ PFirst \/ PDrain \/ PLoaded \/ GetTakes \/ GetTimeout \/ PGot
+Next == \/ Submit \/ PutLands \/ ForeignClear \/ ForeignPut \/ PFirst \/ PDrain \/ PLoaded \/ GetTakes \/ GetTimeout \/ PGot
         \/ PLoad1Done \/ StartFunc \/ EndFunc \/ PCheck
         \/ \E x \in Elems \cup {FElem} : LoaderDone(x)
         \/ \E w \in Waits : WaitCall(w) \/ WaitJoin(w) \/ WaitKick(w) \/ WaitRet(w)
+        \/ ShutdownReq \/ ShutdownEffect \/ DoomedEnd
         \/ Tick \/ Finish
 Spec == Init /\ [][Next]_vars
 
@@ -231,10 +295,13 @@ Inv_C03 == mon.bad["C03"] = Ok
 Inv_C07 == mon.bad["C07"] = Ok
 Inv_C08 == mon.bad["C08"] = Ok
 \* everything produced has been delivered in a successful call by the horizon (C03_AllDelivered, C07_Returns)
-DeliveredAtHorizon == (now = Horizon /\ ~Urgent) =>
+DeliveredAtHorizon == (now = Horizon /\ ~Urgent /\ shut = "no") =>
                         /\ (DOMAIN mon.prod) \subseteq mon.okset
                         /\ nsub = Cardinality(Elems) => Settled \/ \E w \in Waits : wpc[w] = "new"
-NoWaitStuck == (now = Horizon /\ ~Urgent) => \A w \in Waits : wpc[w] \in {"new", "done"}
+NoWaitStuck == (now = Horizon /\ ~Urgent /\ shut = "no") => \A w \in Waits : wpc[w] \in {"new", "done"}
+\* cancelling the background task, as loop shutdown does, always terminates it (C07)
+ShutdownTerminates == shut # "survived"
+ShutdownCompletes == (now = Horizon /\ ~Urgent) => shut \notin {"begun", "doomed"}
 \* vacuity witnesses
 NeverTwoCalls == func.n < 2
 NeverFlush == \A w \in Waits : ~(wpc[w] = "flag" /\ getting.st = "cancelled")
